@@ -348,6 +348,29 @@ func c02Sessions(tier string) []c02Session {
 			out = append(out, c02Session{Name: fmt.Sprintf("statement %q executed after %d Bind messages carrying %d zero bytes each", prog, f[0], f[1]), Params: true, Segs: segs})
 		}
 	}
+	// (m) every number of result-format codes 0..4 for a statement of three columns (too few, too many): whatever the
+	// server says, a RowDescription carries as many fields as it announces
+	for k := 0; k <= 4; k++ {
+		for _, bin := range []int16{0, 1} {
+			rf := make([]int16, k)
+			for i := range rf {
+				rf[i] = (bin + int16(i)) % 2
+			}
+			prog := "3:r,c=T"
+			ext(fmt.Sprintf("three columns, %d result-format codes starting with %d", k, bin), pgproto.Parse("", prog), pgproto.Bind("", "", nil, nil, rf), pgproto.Describe('P', ""), pgproto.Execute("", 0), pgproto.Describe('S', ""))
+		}
+	}
+	// (n) start-up packets asking for a later minor protocol version, with and without protocol options
+	for _, minor := range []uint32{1, 2, 99} {
+		for _, kv := range [][]string{{"user", "ü"}, {"user", "ü", "_pq_.feature", "on"}, {"_pq_.a", "1", "_pq_.b", "2", "user", "x"}} {
+			body := pgproto.Be32(3<<16 | minor)
+			for _, s := range kv {
+				body = append(body, pgproto.CStr(s)...)
+			}
+			body = append(body, 0)
+			out = append(out, c02Session{Name: fmt.Sprintf("start-up asking for protocol 3.%d with parameters %q", minor, kv), Segs: [][]byte{pgproto.Untyped(body), pgproto.Query(progRows)}})
+		}
+	}
 	// (k) more than one encryption request before the start-up packet: after the ONE answer byte only messages follow
 	for i, segs := range [][][]byte{
 		{pgproto.SSLRequest(), pgproto.SSLRequest(), start, pgproto.Query(progRows)},
